@@ -180,7 +180,7 @@ func (e *Engine) typedHavocType(t types.Type, out map[string]bool) {
 func (e *Engine) declaredMods(ct *Contract, fn *ssa.Function, sig *types.Signature, out map[string]bool) {
 	// evaluate the entries in a scratch unit with symbolic parameters
 	un := e.newUnit(fn, "scratch")
-	fr := &Frame{un: un, fn: fn, vals: map[ssa.Value]Val{}, pkgPath: ct.Pkg}
+	fr := &Frame{un: un, fn: fn, vals: map[ssa.Value]Val{}, pkgPath: ct.Pkg, clausePkg: ct.Pkg}
 	st := State{R: tTrue, H: map[string]Term{}}
 	env := map[string]Val{}
 	bindParam := func(name string, t types.Type) {
